@@ -10,7 +10,7 @@ import re
 import numpy as np
 
 import builders_h5 as bh
-from common import Rng, enc_bool, enc_float, enc_list, enc_listlist, errname
+from common import Rng, dec_float, enc_bool, enc_float, enc_list, enc_listlist, enc_rat, errname
 
 PROP = "C05"
 THEOREMS = [
@@ -21,12 +21,42 @@ THEOREMS = [
     "Verif.C05.omit_spec",
     "Verif.C05.omit_none",
     "Verif.C05.omit_sublist",
+    "Verif.C05.omit_tree_explicit",
+    "Verif.C05.omit_tree_present",
+    "Verif.C05.mem_ancestors",
+    "Verif.C05.node_status_spec",
     "Verif.C05.crop_is_slice",
     "Verif.C05.crop_absent_iff_empty",
     "Verif.C05.crop_crop",
     "Verif.C05.keepMeta_spec",
+    "Verif.C05.write_cropped_meta_spec",
+    "Verif.C05.roundHalfEven_nearest",
+    "Verif.C05.roundHalfEven_tie_even",
+    "Verif.C05.double_rounding_std",
+    "Verif.C05.period_round_trip",
+    "Verif.C05.period_round_trip_double",
+    "Verif.C05.F7_witness_exact",
+    "Verif.C05.period_bound_witness",
+    "Verif.C05.tsStep_grid",
+    "Verif.C05.tsStep_some",
+    "Verif.C05.ts_sample_rate_spec",
+    "Verif.C05.write_read",
+    "Verif.C05.cropped_export_reads_back",
+    "Verif.C05.channel_class_v1",
+    "Verif.C05.channel_class_bytes",
+    "Verif.C05.crop_export_read_eq",
+    "Verif.C05.crop_crop_full",
+    "Verif.C05.sample_rate_round_trip",
+    "Verif.C05.read_v1_same",
+    "Verif.C05.reexport_crop",
+    "Verif.C05.cal_from_field_mem",
+    "Verif.C05.cal_from_field_order",
+    "Verif.C05.slice_calibration_spec",
+    "Verif.C05.channel_calibration_spec",
+    "Verif.C05.channel_calibration_whole",
     "Verif.C05.pixels_split",
     "Verif.C05.cropped_kymo_lines",
+    "Verif.C05.cut_ok_necessary",
     "Verif.C05.attr_table_nodup",
     "Verif.C05.attr_lookup_spec",
     "Verif.C05.attr_naming_rule",
@@ -35,23 +65,32 @@ THEOREMS = [
     "Verif.C01.slice_samples",
 ]
 RULE = (
-    "corpus (F1 consequence: crop window ending more than one period before a channel; F7 periods 55/57/110 ns) + "
+    "corpus (F1 consequence: crop window ending more than one period before a channel; F7 periods 55/57/110 ns; periods 2^50, 1e9+1) + "
     "direct ops: _filter_calibration on all item lists over a 4-value time grid (<=3 items, quick) and random lists with "
-    "ties; sample-period read-back for every integer period 1..3000 (thorough: ..30000) and random periods up to 1e9; "
-    "omit patterns (literals, *, ?) against HDF5 paths, also judged by Python's fnmatch; + generated Bluelake-layout "
-    "files (format v1/v2; continuous/time-series/time-tag channels; calibration histories; markers, notes, a "
-    "kymograph) written with h5py, opened with lk.File: every channel read by path and by attribute, calibration of "
-    "every force channel (whole and sliced), then save_as with omit patterns or a crop window drawn around the "
-    "channel boundaries and a reopen, comparing every dataset/attribute with the source (uncropped) or with the "
-    "window filter (cropped). Non-trivial: file cases with >=1 channel where the crop window cuts at least one "
-    "channel properly or drops one, or an omit pattern removes a proper subset; direct ops with a non-empty answer."
+    "ties; sample-period write/read-back for every integer period 1..3000 (thorough: ..30000), random periods up to 2^50, "
+    "arbitrary stored rates around half-way periods, executed both in Lean's Float and exactly over Rat (flDouble); "
+    "round-half-even and one rounded division against the interpreter; omit patterns (literals, *, ?) against HDF5 paths, "
+    "also judged by Python's fnmatch, and the whole output tree (nested groups with/without attributes, bare parents); "
+    "channel_class on every (Kind spelling x dataset shape x rate attribute); to_dataset -> channel_class -> from_dataset, "
+    "its cropped variant and the twice-cropped variant on every small channel x window grid (in-memory HDF5) and random "
+    "channels (ns-epoch starts, periods up to 1e9); Calibration groups -> from_field -> slice -> calibration on a small "
+    "scope (entry absent / without time field / before / at / inside / at the end) and random histories; + generated "
+    "Bluelake-layout files (format v1/v2; continuous/time-series/time-tag channels; calibration histories incl. entries "
+    "without the time field; markers, notes, a kymograph) written with h5py, opened with lk.File: every channel read by "
+    "path and by attribute, calibration of every force channel (whole and sliced), then save_as with omit patterns or a "
+    "crop window drawn around the channel boundaries (40%: exported a second time with another window) and a reopen, "
+    "comparing every dataset/attribute with the source (uncropped) or with the window filter (cropped), and the keep/drop "
+    "decision and new time attributes of every time-stamped item. Non-trivial: file cases with >=1 channel where the crop "
+    "window cuts at least one channel properly or drops one, or an omit pattern removes a proper subset; direct ops with a "
+    "non-empty answer."
 )
 TRUSTED = [
+    "IEEE-754 double division and Python's round(): modelled exactly over Rat (flDouble, roundHalfEven), proved to meet the standard model, and compared with the interpreter's own results on every run (ops c05.fl, c05.round, c05.rateq, c05.dtq)",
     "h5py/HDF5 as the storage codec (files are written and independently re-read with h5py)",
     "Python's fnmatch for patterns with '[' (outside the model; generated patterns use literals, * and ? only)",
 ]
 ASSUMPTIONS = [
-    "sample periods are integer nanoseconds >= 1 (what Continuous.to_dataset can store)",
+    "sample periods are integer nanoseconds >= 1 (what Continuous.to_dataset can store) and <= 2^50 ns (13 days; the range of period_round_trip — period_bound_witness shows a bound is needed); time-series steps <= 2^53 ns",
     "attributes other than Kind/Start/Stop/Sample rate are not required to survive a CROPPED export (the property speaks of channel equality there)",
 ]
 
@@ -99,9 +138,27 @@ def src_tokens(e):
     return f"{e['kind']} {enc_list(e['ts'])}"
 
 
-def cal_order(spec, chname):
-    """calibration items holding `chname`, in h5py's iteration order (group names sorted)"""
-    return [c for c in sorted(spec["calibrations"], key=lambda c: c["idx"]) if chname in c["channels"]]
+def cal_groups(spec):
+    """the groups under Calibration/ in h5py's iteration order (names sorted), each as {channel: time | None}"""
+    return [{nm: a.get("Stop time (ns)") for nm, a in c["channels"].items()} for c in sorted(spec["calibrations"], key=lambda c: c["idx"])]
+
+
+def cal_positions(spec):
+    """cal_id (unique per group in the generated files) -> position of the group in h5py order"""
+    return {next(iter(c["channels"].values()))["cal_id"]: i for i, c in enumerate(sorted(spec["calibrations"], key=lambda c: c["idx"])) if c["channels"]}
+
+
+def enc_groups(groups):
+    if not groups:
+        return "-"
+    return "".join("@" + "".join(f"{nm.replace(' ', '_')}={'N' if t is None else int(t)}," for nm, t in g.items()) for g in groups)
+
+
+def applicable(groups, chname, start, stop):
+    """the property text: the last item applied at or before the start, then those applied inside the range"""
+    items = sorted(((g[chname], i) for i, g in enumerate(groups) if g.get(chname) is not None), key=lambda x: x[0])
+    pre = [i for t, i in items if t <= start]
+    return ([pre[-1]] if pre else []) + [i for t, i in items if start < t < stop]
 
 
 class FakeDset:
@@ -221,6 +278,168 @@ def _attrs_impl(case):
     return out
 
 
+# ------------------------------------------------------------------ datasets: to_dataset / channel_class / from_dataset
+
+
+def make_source(e):
+    """the real source object for a case's channel description (ts/tags values are the sample index, as in the model)"""
+    from lumicks.pylake.channel import Continuous, TimeSeries, TimeTags
+
+    if e["kind"] == "cont":
+        return Continuous(np.asarray(e["data"], dtype=float), e["start"], e["dt"])
+    if e["kind"] == "ts":
+        return TimeSeries(np.arange(len(e["ts"]), dtype=float), np.asarray(e["ts"], dtype=np.int64))
+    return TimeTags(np.asarray(e["ts"], dtype=np.int64))
+
+
+def src_samples(e):
+    if e["kind"] == "cont":
+        return [(e["start"] + i * e["dt"], int(v)) for i, v in enumerate(e["data"])]
+    if e["kind"] == "ts":
+        return [(t, i) for i, t in enumerate(e["ts"])]
+    return [(t, t) for t in e["ts"]]
+
+
+def show_dset(dset):
+    """a written dataset as h5py sees it, in the model's notation"""
+    a = dset.attrs
+    if "Kind" in a:
+        import h5py
+
+        k = a["Kind"]
+        info = h5py.check_string_dtype(a.get_id("Kind").dtype)
+        if isinstance(k, bytes):
+            kind = "bytes:" + bytes(k).decode()
+        else:
+            # a Python bytes value is stored as an ASCII string (and handed back decoded), a str as UTF-8
+            kind = ("bytes:" if info is not None and info.encoding == "ascii" else "str:") + str(k)
+    else:
+        kind = "absent"
+    st = str(int(a["Start time (ns)"])) if "Start time (ns)" in a else "N"
+    sp = str(int(a["Stop time (ns)"])) if "Stop time (ns)" in a else "N"
+    rate = enc_rat(float(a["Sample rate (Hz)"])) if "Sample rate (Hz)" in a else "N"
+    if dset.dtype.fields is None:
+        vals = dset[()]
+        pl = "plain " + enc_list([int(v) if np.issubdtype(vals.dtype, np.integer) else int(round(float(v))) for v in vals])
+    else:
+        pl = "compound [" + ",".join(f"{int(t)}:{int(round(float(v)))}" for t, v in zip(dset["Timestamp"], dset["Value"])) + "]"
+    return f"kind={kind} start={st} stop={sp} rate={rate} {pl}"
+
+
+def show_read(s):
+    """a channel read from a dataset, in the notation of the model's showSrc"""
+    from lumicks.pylake.channel import Continuous, TimeSeries, TimeTags
+
+    src = s._src
+    if isinstance(src, TimeTags):
+        return f"tags {int(s.start)} {int(s.stop)} {enc_list([int(t) for t in s.timestamps])}"
+    body = "[" + ",".join(f"{int(t)}:{int(round(float(v)))}" for t, v in zip(s.timestamps, s.data)) + "]"
+    if isinstance(src, Continuous):
+        if len(s.timestamps) != len(s.data):
+            return f"length-mismatch {len(s.timestamps)} {len(s.data)}"
+        return f"cont {int(s.start)} {public_dt(s)} {body}"
+    if isinstance(src, TimeSeries):
+        return "ts " + body
+    return "unknown-source " + type(src).__name__
+
+
+def mem_h5():
+    import h5py
+
+    return h5py.File("c05-mem", "w", driver="core", backing_store=False)
+
+
+def _dset_impl(case):
+    from lumicks.pylake.channel import channel_class
+
+    out = []
+    with mem_h5() as f:
+        try:
+            d = make_source(case["src"]).to_dataset(f, "x")
+            out.append(show_dset(d))
+        except Exception as ex:
+            return [errname(ex)] * 2
+        try:
+            out.append(show_read(channel_class(d).from_dataset(d)))
+        except Exception as ex:
+            out.append(errname(ex))
+    return out
+
+
+def _calchan_impl(case):
+    """Calibration groups in a real (in-memory) HDF5 file -> ForceCalibrationList.from_field -> a Slice carrying the list
+    -> optional [a:b] -> .calibration"""
+    from lumicks.pylake.calibration import ForceCalibrationList
+    from lumicks.pylake.channel import Slice
+
+    with mem_h5() as f:
+        for i, g in enumerate(case["groups"]):
+            gg = f.require_group("Calibration").require_group(f"{i:03d}")
+            for nm, t in g.items():
+                sub = gg.require_group(nm)
+                sub.attrs["cal_id"] = i
+                sub.attrs["Kind"] = "Full calibration"
+                sub.attrs["Start time (ns)"] = 0
+                if t is not None:
+                    sub.attrs["Stop time (ns)"] = t
+        sl = Slice(make_source(case["src"]), calibration=ForceCalibrationList.from_field(f, case["ch"]))
+        if case.get("win"):
+            sl = sl[case["win"][0] : case["win"][1]]
+        return [enc_list([int(it["cal_id"]) for it in sl.calibration])]
+
+
+def _class_impl(case):
+    from lumicks.pylake.channel import channel_class
+
+    with mem_h5() as f:
+        if case["shape"] == "plain":
+            d = f.create_dataset("x", data=np.arange(2.0))
+        else:
+            d = f.create_dataset("x", data=np.array([(1, 1.0), (2, 2.0)], np.dtype([("Timestamp", np.int64), ("Value", float)])))
+        k = case["kind"]
+        if k.startswith("str:"):
+            d.attrs["Kind"] = k[4:]
+        elif k.startswith("bytes:"):
+            d.attrs["Kind"] = np.bytes_(k[6:].encode())  # fixed-length: read back as bytes (the decode branch)
+        if case["rate"]:
+            d.attrs["Sample rate (Hz)"] = 1.0
+        d.attrs["Start time (ns)"] = 0
+        d.attrs["Stop time (ns)"] = 0
+        try:
+            return [channel_class(d).__name__]
+        except Exception as ex:
+            return [errname(ex)]
+
+
+def _cropread_impl(case):
+    """what write_h5 does for one numerical channel (slice through Slice.__getitem__, drop when empty, else the
+    sliced source's to_dataset) and what File(new)[name] does with the written dataset"""
+    from lumicks.pylake.channel import Slice, channel_class
+
+    a, b = case["crop"]
+    sliced = Slice(make_source(case["src"]))[a:b]
+    if not sliced:
+        return ["absent"]
+    with mem_h5() as f:
+        d = sliced._src.to_dataset(f, "x", compression="gzip", compression_opts=case.get("compression", 5))
+        return [show_read(channel_class(d).from_dataset(d))]
+
+
+def _cropread2_impl(case):
+    """export with one window, read, export what was read with a second window, read"""
+    from lumicks.pylake.channel import Slice, channel_class
+
+    sl = Slice(make_source(case["src"]))
+    with mem_h5() as f:
+        for i, (a, b) in enumerate((case["crop"], case["crop2"])):
+            sl = sl[a:b]
+            if not sl:
+                return ["absent"]
+            d = sl._src.to_dataset(f, f"x{i}", compression="gzip", compression_opts=5)
+            sl = channel_class(d).from_dataset(d)
+        return [show_read(sl)]
+
+
 # ------------------------------------------------------------------ file case: plan of ops
 
 
@@ -237,27 +456,41 @@ def file_plan(case):
         if ch["group"] in ("Force HF", "Force LF") and ch["name"][-1] in "xy":
             path = f"{ch['group']}/{ch['name']}"
             e = exp[path]
-            items = cal_order(spec, ch["name"])
-            times = [c["channels"][ch["name"]]["Stop time (ns)"] for c in items]
             ts = e["ts"]
             if not ts:
                 continue
-            start = ts[0]
-            stop = ts[0] + len(ts) * e["dt"] if e["kind"] == "cont" else ts[-1] + 1
-            plan.append((f"c05.cal {enc_list(times)} {start} {stop}", "cal", (path, None)))
+            # the model goes from the Calibration groups (from_field) through the slice (C01) to the filter
+            head = f"c05.calchan {enc_groups(cal_groups(spec))} {ch['name'].replace(' ', '_')} {src_tokens(e)}"
+            plan.append((head, "cal", (path, None)))
             for w in case.get("cal_windows", []):
-                # the sliced channel's own start/stop are C01's business; pass what a C01-correct slice reports.
                 # An empty slice has no time range to speak of: not judged.
                 if sliced_bounds(e, w) is not None:
-                    plan.append((None, "calslice", (path, w)))
+                    plan.append((f"{head} {w[0]} {w[1]}", "calslice", (path, w)))
     if case["mode"] == "omit":
         pats = case["omit"]
         paths = case["all_paths"]
         plan.append((f"c05.omit {enc_listlist([[ord(c) for c in p] for p in pats])} {enc_listlist([[ord(c) for c in p] for p in paths])}", "omit", None))
+        # the whole output tree, bare parents included
+        plan.append((f"c05.omittree {enc_listlist([[ord(c) for c in p] for p in pats])} {enc_listlist([[ord(c) for c in n[0]] for n in case['tree']])}", "omittree", None))
     elif case["mode"] == "crop":
         a, b = case["crop"]
         for path in sorted(exp):
             plan.append((f"c05.crop {src_tokens(exp[path])} {a} {b}", "crop", path))
+        for path in sorted(exp):
+            # the same observation against the model's slice -> to_dataset -> channel_class -> from_dataset chain
+            plan.append((f"c05.cropread {src_tokens(exp[path])} {a} {b}", "cropread", path))
+        # time-stamped items: the item crops itself (or cannot), then the keep rule decides; the model is given what the
+        # item reported (observed through the public item[a:b]) and predicts presence and the new time attributes
+        seen = case.get("_obs", {}).get("keep", {})
+        for grp, key in (("Kymograph", "kymos"), ("Marker", "markers"), ("Note", "notes")):
+            for it in spec[key]:
+                sl = seen.get(f"{grp}/{it['name']}")
+                plan.append((f"c05.keepx {sl[0] if sl else 'E'} {sl[1] if sl else 'E'} {a} {b}", "keep", (grp, it["name"])))
+        if case.get("crop2"):
+            c, d = case["crop2"]
+            for path in sorted(exp):
+                # the exported file exported again with a second window
+                plan.append((f"c05.cropread2 {src_tokens(exp[path])} {a} {b} {c} {d}", "cropread2", path))
     return plan
 
 
@@ -277,9 +510,32 @@ def ops(case):
     if k == "cal":
         return [f"c05.cal {enc_list(case['times'])} {case['start']} {case['stop']}"]
     if k == "dt":
-        return [f"c05.dt {enc_float(1e9 / case['dt'])}"]
+        # the double arithmetic of the code, executed (i) by Lean's Float and (ii) exactly over Rat by the model's
+        # own round-to-nearest-even (`flDouble`), which is what the theorems are about
+        return [f"c05.dt {enc_float(1e9 / case['dt'])}", f"c05.rateq {case['dt']}", f"c05.dtq {enc_rat(1e9 / case['dt'])}"]
+    if k == "dtr":
+        return [f"c05.dtq {enc_rat(dec_float(case['rate']))}"]
+    if k == "dtu":
+        return [f"c05.dtu {enc_float(1e9 / case['dt'])}", f"c05.dtqu {enc_rat(1e9 / case['dt'])}"]
+    if k == "num":
+        return [f"c05.{case['what']} {case['x']}"]
+    if k == "tsrate":
+        return [f"c05.tsrate {enc_list(case['ts'])}"]
     if k == "omit":
         return [f"c05.omit {enc_listlist([[ord(c) for c in p] for p in case['pats']])} {enc_listlist([[ord(c) for c in p] for p in case['paths']])}"]
+    if k == "calchan":
+        w = case.get("win")
+        return [f"c05.calchan {enc_groups(case['groups'])} {case['ch'].replace(' ', '_')} {src_tokens(case['src'])}" + (f" {w[0]} {w[1]}" if w else "")]
+    if k == "omittree":
+        return [f"c05.omittree {enc_listlist([[ord(c) for c in p] for p in case['pats']])} {enc_listlist([[ord(c) for c in n[0]] for n in case['tree']])}"]
+    if k == "dset":
+        return [f"c05.todset {src_tokens(case['src'])}", f"c05.readback {src_tokens(case['src'])}"]
+    if k == "class":
+        return [f"c05.class {case['kind']} {case['shape']} {enc_bool(case['rate'])}"]
+    if k == "cropread":
+        return [f"c05.cropread {src_tokens(case['src'])} {case['crop'][0]} {case['crop'][1]}"]
+    if k == "cropread2":
+        return [f"c05.cropread2 {src_tokens(case['src'])} {case['crop'][0]} {case['crop'][1]} {case['crop2'][0]} {case['crop2'][1]}"]
     if k == "attrs":
         pres = enc_listlist([[ord(c) for c in p] for p in case["present"]])
         return [f"c05.attr {pres} {a}" for a in attr_names()]
@@ -287,19 +543,7 @@ def ops(case):
         out = []
         exp = bh.expected_channels(case["spec"])
         for line, kind, payload in file_plan(case):
-            if kind == "calslice":
-                path, w = payload
-                e = exp[path]
-                sb = sliced_bounds(e, w)
-                chname = path.split("/")[1]
-                items = cal_order(case["spec"], chname)
-                times = [c["channels"][chname]["Stop time (ns)"] for c in items]
-                if sb is None:
-                    out.append(f"c05.cal [] 0 0")
-                else:
-                    out.append(f"c05.cal {enc_list(times)} {sb[0]} {sb[1]}")
-            else:
-                out.append(line)
+            out.append(line)
         return out
     raise ValueError(k)
 
@@ -340,9 +584,43 @@ def impl(case):
             from lumicks.pylake.channel import Continuous
 
             s = Continuous.from_dataset(FakeDset({"Start time (ns)": 0, "Sample rate (Hz)": 1e9 / case["dt"]}, 3))
+            stored = Continuous(np.arange(3.0), 0, case["dt"]).sample_rate  # what to_dataset writes
+            s2 = Continuous.from_dataset(FakeDset({"Start time (ns)": 0, "Sample rate (Hz)": stored}, 3))
+            return [str(public_dt(s)), enc_rat(float(stored)), str(public_dt(s2))]
+        if k == "dtr":
+            from lumicks.pylake.channel import Continuous
+
+            s = Continuous.from_dataset(FakeDset({"Start time (ns)": 0, "Sample rate (Hz)": dec_float(case["rate"])}, 3))
             return [str(public_dt(s))]
+        if k == "dtu":
+            # the expression of the pinned snapshot (finding F7, fixed in /repo) that F7_witness_exact speaks about
+            return [str(int(1e9 / (1e9 / case["dt"])))] * 2
+        if k == "num":
+            from fractions import Fraction
+
+            x = Fraction(case["x"])
+            if case["what"] == "round":
+                return [str(round(float(x)))]  # x is a double: Python's round on it, as in from_dataset
+            return [enc_rat(x.numerator / x.denominator)]  # one correctly rounded division, as in sample_rate
+        if k == "tsrate":
+            from lumicks.pylake.channel import Slice, TimeSeries
+
+            r_ = Slice(TimeSeries(np.zeros(len(case["ts"])), np.asarray(case["ts"], dtype=np.int64))).sample_rate
+            return ["N" if r_ is None else enc_rat(float(r_))]
         if k == "omit":
             return [_omit_impl(case)]
+        if k == "dset":
+            return _dset_impl(case)
+        if k == "omittree":
+            return _omittree_impl(case)
+        if k == "calchan":
+            return _calchan_impl(case)
+        if k == "class":
+            return _class_impl(case)
+        if k == "cropread":
+            return _cropread_impl(case)
+        if k == "cropread2":
+            return _cropread2_impl(case)
         if k == "file":
             return _file_impl(case)
         if k == "attrs":
@@ -379,6 +657,40 @@ def _omit_impl(case):
         shutil.rmtree(d, ignore_errors=True)
 
 
+def _omittree_impl(case):
+    """write_h5's traversal on a small real file with nested groups (with and without attributes)"""
+    import h5py
+
+    lk = _lk()
+    d = tempfile.mkdtemp(prefix="c05_")
+    try:
+        src = os.path.join(d, "a.h5")
+        with h5py.File(src, "w") as f:
+            f.attrs["Bluelake version"] = "x"
+            f.attrs["File format version"] = 2
+            for path, kind, has_attrs in case["tree"]:
+                if kind == "g":
+                    g = f.require_group(path)
+                    if has_attrs:
+                        g.attrs["note"] = "group " + path
+                else:
+                    ds = f.create_dataset(path, data=np.arange(2.0))
+                    ds.attrs["Kind"] = "Continuous"
+                    ds.attrs["Start time (ns)"] = 0
+                    ds.attrs["Stop time (ns)"] = 2
+                    ds.attrs["Sample rate (Hz)"] = 1e9
+        f = lk.File(src)
+        out = os.path.join(d, "b.h5")
+        pats = case["pats"]
+        f.save_as(out, omit_data=(pats[0] if len(pats) == 1 else set(pats)) if pats else None, verbose=False)
+        with h5py.File(out, "r") as g:
+            res = tree_status(f.h5, g, case["tree"])
+        f.h5.close()
+        return [res]
+    finally:
+        shutil.rmtree(d, ignore_errors=True)
+
+
 def _file_impl(case):
     import h5py
 
@@ -396,7 +708,7 @@ def _file_impl(case):
             obs["read"] = read_all(f, spec)
             obs["rates"] = {}
             answers = []
-            new = None
+            new = new2 = None
             out = os.path.join(d, "out.h5")
             if case["mode"] == "omit":
                 pats = case["omit"]
@@ -424,10 +736,9 @@ def _file_impl(case):
                             continue
                         s = routes[-1] if case.get("cal_by_attr", True) else routes[0]
                         answers.append(enc_list([int(it["cal_id"]) for it in s.calibration]))
-                        # the model numbers items by their position in h5py order; translate ids to positions
-                        chname = n
-                        order = [c["channels"][chname]["cal_id"] for c in cal_order(spec, chname)]
-                        answers[-1] = enc_list([order.index(int(it["cal_id"])) for it in s.calibration])
+                        # the model numbers items by the position of their group in h5py order
+                        pos = cal_positions(spec)
+                        answers[-1] = enc_list([pos[int(it["cal_id"])] for it in s.calibration])
                     elif kind == "omit":
                         with h5py.File(out, "r") as g:
                             flags = []
@@ -441,13 +752,37 @@ def _file_impl(case):
                                     flags.append(p in g and dict_equal(dict(node_src.attrs), dict(g[p].attrs)))
                             answers.append(enc_list(flags, enc_bool))
                             obs["omit_compare"] = compare_uncropped(f.h5, g, case["all_paths"], flags)
-                    elif kind == "crop":
+                    elif kind == "keep":
+                        grp, name = payload
                         if new is None:
                             new = lk.File(out)
+                        try:
+                            it = f[grp][name][slice(*case["crop"])]
+                            obs.setdefault("keep", {})[f"{grp}/{name}"] = [int(it.start), int(it.stop)]
+                        except (IndexError, TypeError):
+                            obs.setdefault("keep", {})[f"{grp}/{name}"] = None
+                        if grp in new.h5 and name in new.h5[grp]:
+                            at = new.h5[grp][name].attrs
+                            answers.append(f"{int(at['Start time (ns)'])} {int(at['Stop time (ns)'])}")
+                        else:
+                            answers.append("N")
+                    elif kind == "omittree":
+                        with h5py.File(out, "r") as g:
+                            answers.append(tree_status(f.h5, g, case["tree"]))
+                    elif kind in ("crop", "cropread", "cropread2"):
+                        if new is None:
+                            new = lk.File(out)
+                        cur = new
+                        if kind == "cropread2":
+                            if new2 is None:
+                                out2 = os.path.join(d, "out2.h5")
+                                new.save_as(out2, compression_level=case.get("compression", 5), crop_time_range=tuple(case["crop2"]), verbose=False)
+                                new2 = lk.File(out2)
+                            cur = new2
                         g, n = payload.split("/")
                         e = exp[payload]
-                        if g in new.h5 and n in new.h5[g]:
-                            s = new[g][n]
+                        if g in cur.h5 and n in cur.h5[g]:
+                            s = cur[g][n]
                             txt = show_slice(e["kind"], s)
                             if e["kind"] == "cont":
                                 txt = f"cont {int(s.start)} {public_dt(s)} " + txt.split(" ", 1)[1]
@@ -463,12 +798,44 @@ def _file_impl(case):
                     obs["kymo"] = kymo_observation(f, new or lk.File(out), spec, case["crop"])
                 except Exception as ex:
                     obs["kymo"] = {"error": repr(ex)}
+            if new2 is not None:
+                new2.h5.close()
             if new is not None:
                 new.h5.close()
             f.h5.close()
         return answers
     finally:
         shutil.rmtree(d, ignore_errors=True)
+
+
+def tree_status(hsrc, hnew, tree):
+    """per source node: A absent, E written with its attributes, I present but bare, P present (a group that has no
+    attributes in the source: E and I look the same)"""
+    out = []
+    for path, kind, has_attrs in tree:
+        if path not in hnew:
+            out.append("A")
+        elif kind == "d":
+            out.append("E")
+        elif not has_attrs:
+            out.append("P")
+        else:
+            out.append("E" if dict_equal(dict(hsrc[path].attrs), dict(hnew[path].attrs)) else ("I" if len(hnew[path].attrs) == 0 else "partial-attributes"))
+    return "[" + ",".join(out) + "]"
+
+
+def tree_oracle(tree, pats, ans):
+    """save_as reproduces every dataset and attribute except omitted paths"""
+    got = ans.strip("[]").split(",") if ans != "[]" else []
+    if len(got) != len(tree):
+        return f"omit: {ans}"
+    for (path, kind, has_attrs), st in zip(tree, got):
+        omitted = any(_fnmatch.fnmatchcase(path, q) for q in pats)
+        if not omitted and st not in ("E", "P"):
+            return f"save_as(omit={pats}): {path} is not omitted but is {st} in the new file"
+        if omitted and (st == "E" or (kind == "d" and st != "A")):
+            return f"save_as(omit={pats}): {path} is omitted but is {st} in the new file"
+    return None
 
 
 def dict_equal(a, b):
@@ -547,12 +914,123 @@ def oracle(case, ia):
         exp = ([pre[-1]] if pre else []) + [i for i, t in items if a < t < b]
         return None if ia[0] == enc_list(exp) else f"calibration-filter: got {ia[0]}, the items that apply to [{a},{b}) are {enc_list(exp)}"
     if k == "dt":
-        return None if ia[0] == str(case["dt"]) else f"sample-period: stored rate 1e9/{case['dt']} Hz was read back with period {ia[0]} ns"
+        if ia[0] != str(case["dt"]) or (len(ia) > 2 and ia[2] != str(case["dt"])):
+            return f"sample-period: stored rate 1e9/{case['dt']} Hz was read back with period {ia[0]} / {ia[-1]} ns"
+        if len(ia) > 1:
+            from fractions import Fraction
+
+            # the stored rate is the period's rate to double precision (the hypothesis of period_round_trip)
+            exact = Fraction(10**9, case["dt"])
+            try:
+                p_, q_ = ia[1].split("/")
+                got = Fraction(int(p_), int(q_))
+            except Exception:
+                return f"sample-rate: {ia[1]}"
+            if abs(got - exact) * 2**53 > exact:
+                return f"sample-rate: a {case['dt']} ns channel stores {float(got)!r} Hz, not 1e9/{case['dt']} to double precision"
+        return None
+    if k == "num":
+        from fractions import Fraction
+
+        x = Fraction(case["x"])
+        try:
+            p_, q_ = (ia[0].split("/") + ["1"])[:2]
+            got = Fraction(int(p_), int(q_))
+        except Exception:
+            return f"{case['what']}: {ia[0]}"
+        if case["what"] == "round":
+            ok = abs(got - x) <= Fraction(1, 2) and (abs(got - x) < Fraction(1, 2) or got % 2 == 0)
+        else:
+            ok = abs(got - x) * 2**53 <= abs(x)
+        return None if ok else f"arithmetic: {case['what']}({case['x']}) = {ia[0]}"
+    if k == "tsrate":
+        from fractions import Fraction
+
+        ts = case["ts"]
+        steps = {b - a for a, b in zip(ts, ts[1:])}
+        if len(steps) != 1:
+            return None if ia[0] == "N" else f"sample-rate: a time series with steps {sorted(steps)} reports {ia[0]}"
+        exact = Fraction(10**9, steps.pop())
+        try:
+            p_, q_ = ia[0].split("/")
+            got = Fraction(int(p_), int(q_))
+        except Exception:
+            return f"sample-rate: a regular time series reports {ia[0]}"
+        return None if abs(got - exact) * 2**53 <= abs(exact) else f"sample-rate: a regular time series of step {Fraction(10**9) / exact} ns reports {float(got)!r} Hz"
+    if k == "dtr":
+        from fractions import Fraction
+
+        # the period read is a nearest integer to 1e9/rate (one ulp of slack for the rounded division)
+        exact = Fraction(10**9) / Fraction(dec_float(case["rate"]))
+        try:
+            got = int(ia[0])
+        except ValueError:
+            return f"sample-period: rate {dec_float(case['rate'])!r} Hz read as {ia[0]}"
+        if abs(got - exact) > Fraction(1, 2) + exact / 2**52:
+            return f"sample-period: rate {dec_float(case['rate'])!r} Hz read back with period {got} ns, nearest is {float(exact)!r}"
+        return None
     if k == "omit":
         exp = enc_list([not any(_fnmatch.fnmatchcase(p, q) for q in case["pats"]) for p in case["paths"]], enc_bool)
         return None if ia[0] == exp else f"omit: datasets present {ia[0]}, expected {exp} for patterns {case['pats']}"
     if k == "file":
         return _file_oracle(case, ia)
+    if k == "calchan":
+        e = case["src"]
+        smp = src_samples(e)
+        if case.get("win"):
+            smp = [(t, v) for t, v in smp if case["win"][0] <= t < case["win"][1]]
+        if not smp:
+            return None  # no sample: no time range to speak of
+        want = applicable(case["groups"], case["ch"], smp[0][0], smp[-1][0] + (e["dt"] if e["kind"] == "cont" else 1))
+        return None if ia[0] == enc_list(want) else f"calibration: channel {case['ch']}{case.get('win') or ''} lists groups {ia[0]}, applicable to its time range are {enc_list(want)}"
+    if k == "omittree":
+        return tree_oracle(case["tree"], case["pats"], ia[0])
+    if k == "dset":
+        # re-export without loss: what is read from the written dataset is the channel that was written
+        e = case["src"]
+        smp = src_samples(e)
+        if e["kind"] == "ts" and not smp:
+            return None  # an empty time series has no time range; it is never written (dropped by the crop rule)
+        body = "[" + ",".join(f"{t}:{v}" for t, v in smp) + "]"
+        if e["kind"] == "cont":
+            want = f"cont {e['start']} {e['dt']} {body}"
+        elif e["kind"] == "ts":
+            want = "ts " + body
+        else:
+            want = None if ia[1].startswith("tags ") and ia[1].split(" ")[3] == enc_list(e["ts"]) else "tags ... " + enc_list(e["ts"])
+        if want is not None and ia[1] != want:
+            return f"write/read: a channel written with to_dataset reads back as {ia[1][:200]}, it was {want[:200]}"
+        return None
+    if k == "class":
+        kd = case["kind"].split(":", 1)[-1]
+        if kd in ("Continuous", "TimeSeries", "TimeTags") and ia[0] != kd:
+            return f"channel kind: a dataset marked {case['kind']} is read as {ia[0]}"
+        if case["kind"] == "absent" and case["shape"] == "compound" and ia[0] != "TimeSeries":
+            return f"channel kind: a v1 compound dataset is read as {ia[0]}"
+        if case["kind"] == "absent" and case["shape"] == "plain" and case["rate"] and ia[0] != "Continuous":
+            return f"channel kind: a v1 dataset with a sample rate is read as {ia[0]}"
+        return None
+    if k in ("cropread", "cropread2"):
+        a, b = case["crop"]
+        if k == "cropread2":
+            a, b = max(a, case["crop2"][0]), min(b, case["crop2"][1])
+        e = case["src"]
+        kept = [(t, v) for t, v in src_samples(e) if a <= t < b]
+        if not kept:
+            return None if ia[0] == "absent" else f"crop [{a},{b}): no sample in the window but the channel is written: {ia[0][:200]}"
+        body = "[" + ",".join(f"{t}:{v}" for t, v in kept) + "]"
+        if e["kind"] == "cont":
+            want = f"cont {kept[0][0]} {e['dt']} {body}"
+            got = ia[0]
+        elif e["kind"] == "ts":
+            want, got = "ts " + body, ia[0]
+        else:
+            want = "tags " + enc_list([t for t, _ in kept])
+            toks = ia[0].split(" ")
+            got = "tags " + toks[-1] if toks[0] == "tags" else ia[0]
+        if got != want:
+            return f"crop [{a},{b}): the exported channel reads back as {ia[0][:200]}, the original sliced to the window is {want[:200]}"
+        return None
     if k == "attrs":
         # from the documented naming scheme: the attribute's own dataset, or nothing — never another channel
         pres = set(case["present"])
@@ -610,12 +1088,7 @@ def _file_oracle(case, ia):
             chname = path.split("/")[1]
             e = exp[path]
             sb = sliced_bounds(e, w) if w is not None else ((e["ts"][0], e["ts"][0] + len(e["ts"]) * e["dt"]) if e["kind"] == "cont" else (e["ts"][0], e["ts"][-1] + 1))
-            if sb is None:
-                want = []
-            else:
-                items = sorted(enumerate(c["channels"][chname]["Stop time (ns)"] for c in cal_order(spec, chname)), key=lambda x: x[1])
-                pre = [i for i, t in items if t <= sb[0]]
-                want = ([pre[-1]] if pre else []) + [i for i, t in items if sb[0] < t < sb[1]]
+            want = [] if sb is None else applicable(cal_groups(spec), chname, sb[0], sb[1])
             if ans != enc_list(want):
                 return f"calibration: {path}{'' if w is None else list(w)} lists items {ans}, applicable are {enc_list(want)}"
         elif kind == "omit":
@@ -624,8 +1097,14 @@ def _file_oracle(case, ia):
                 return f"save_as(omit={case['omit']}): exported flags {ans} for {case['all_paths']}, expected {enc_list(want, enc_bool)}"
             if obs.get("omit_compare"):
                 return "save_as without cropping: " + "; ".join(obs["omit_compare"][:3])
-        elif kind == "crop":
+        elif kind == "omittree":
+            r = tree_oracle(case["tree"], case["omit"], ans)
+            if r:
+                return r
+        elif kind in ("crop", "cropread2"):
             a, b = case["crop"]
+            if kind == "cropread2":
+                a, b = max(a, case["crop2"][0]), min(b, case["crop2"][1])
             e = exp[payload]
             kept = [(t, v) for t, v in zip(e["ts"], e["data"]) if a <= t < b]
             if not kept:
@@ -660,9 +1139,12 @@ def _file_oracle(case, ia):
 
 
 def agree(case, i, ia, ma):
+    if ia.startswith("[") and ("P" in ia) and (case["op"] == "omittree" or (case["op"] == "file" and i < len(file_plan(case)) and file_plan(case)[i][1] == "omittree")):
+        a, m = ia.strip("[]").split(","), ma.strip("[]").split(",")
+        return len(a) == len(m) and all(x == y or (x == "P" and y in ("E", "I")) for x, y in zip(a, m))
     if case["op"] == "file":
         plan = file_plan(case)
-        if i < len(plan) and plan[i][1] == "crop":
+        if i < len(plan) and plan[i][1] in ("crop", "cropread", "cropread2"):
             # the model prints its full source; compare the samples (and, for non-empty continuous results, the start)
             if ma == "absent" or ia == "absent":
                 return ia == ma
@@ -677,10 +1159,20 @@ def nontrivial(case, ia):
     k = case["op"]
     if k in ("cal", "omit"):
         return ia[0] not in ("[]",) and ("T" in ia[0] or "F" in ia[0] or any(ch.isdigit() for ch in ia[0]))
-    if k == "dt":
+    if k in ("dt", "dtr", "dtu", "num"):
         return True
+    if k == "tsrate":
+        return len(case["ts"]) >= 2
     if k == "attrs":
         return len(case["present"]) > 0
+    if k in ("dset", "class"):
+        return True
+    if k == "omittree":
+        return "A" in ia[0] or "I" in ia[0]
+    if k == "calchan":
+        return len(case["groups"]) > 0 and ia[0] != "[]"
+    if k in ("cropread", "cropread2"):
+        return len(src_samples(case["src"])) > 0
     if k == "file":
         if case["mode"] == "crop":
             return any(a == "absent" for a in ia) or any(a.startswith(("cont", "ts", "tags")) for a in ia)
@@ -725,10 +1217,11 @@ def shrink(case):
 # ------------------------------------------------------------------ generators
 
 
-def all_paths(spec):
+def all_paths(spec, with_tree=False):
     """every dataset path, and every group that carries attributes, of the written file in visititems order.
     (A group without attributes that is omitted is re-created implicitly as the parent of a written dataset and
-    cannot be told apart from an exported one, so it is not an observable.)"""
+    cannot be told apart from an exported one, so it is not an observable.)
+    with_tree: also every node as [path, "d" | "g", has attributes]."""
     import h5py
 
     d = tempfile.mkdtemp(prefix="c05p_")
@@ -738,15 +1231,16 @@ def all_paths(spec):
         names = []
         with h5py.File(p, "r") as f:
             f.visit(names.append)
+            tree = [[n, "d" if isinstance(f[n], h5py.Dataset) else "g", len(f[n].attrs) > 0] for n in names]
             names = [n for n in names if isinstance(f[n], h5py.Dataset) or len(f[n].attrs) > 0]
-        return names
+        return (names, tree) if with_tree else names
     finally:
         shutil.rmtree(d, ignore_errors=True)
 
 
 def finalize(case):
     case = dict(case)
-    case["all_paths"] = all_paths(case["spec"])
+    case["all_paths"], case["tree"] = all_paths(case["spec"], with_tree=True)
     return case
 
 
@@ -797,6 +1291,12 @@ def crop_windows(rng, spec, n):
 
 def file_case(rng, stream, size="small", mode=None, version=None):
     spec = bh.make_spec(rng, version=version, size=size)
+    r2 = rng.fork("cal-notime")
+    for c in spec["calibrations"]:
+        for nm in list(c["channels"]):
+            if r2.chance(0.15):
+                # a calibration entry without the time field is skipped by from_field
+                c["channels"][nm] = {k_: v_ for k_, v_ in c["channels"][nm].items() if k_ != "Stop time (ns)"}
     mode = mode or rng.choice(["omit", "crop", "crop"])
     case = {"stream": stream, "op": "file", "spec": spec, "mode": mode, "compression": rng.choice([0, 1, 5, 9]), "cal_by_attr": rng.chance(0.5)}
     case = finalize(case)
@@ -806,6 +1306,9 @@ def file_case(rng, stream, size="small", mode=None, version=None):
         case["omit"] = [gen_pattern(rng, case["all_paths"]) for _ in range(npat)]
     else:
         case["crop"] = crop_windows(rng, spec, 1)[0]
+        r3 = rng.fork("crop2")
+        if r3.chance(0.4):
+            case["crop2"] = crop_windows(r3, dict(spec, kymos=[]), 1)[0]
     return case
 
 
@@ -814,7 +1317,7 @@ def cases(tier, rng):
 
     quick = tier == "quick"
     # ---- corpus
-    for dt in (55, 57, 110, 12800, 1):
+    for dt in (55, 57, 110, 12800, 1, 2**50, 2**50 - 1, 10**9, 10**9 + 1):
         yield {"stream": "corpus", "op": "dt", "dt": dt}
     # F1 consequence: a crop window that ends more than one period before a channel begins
     spec = {
@@ -837,6 +1340,40 @@ def cases(tier, rng):
                 yield {"stream": "small-scope", "op": "cal", "times": list(times), "start": a, "stop": b}
     for dt in range(1, 3001 if quick else 30001):
         yield {"stream": "small-scope", "op": "dt", "dt": dt}
+    # ---- the arithmetic the sample-period theorems are about: round-half-even, one correctly rounded division,
+    #      arbitrary stored rates around half-way periods, and the truncating read-back of the pinned snapshot
+    for kq in range(-42, 43):
+        yield {"stream": "small-scope", "op": "num", "what": "round", "x": f"{kq}/4"}
+    for pn in list(range(1, 13)) + [10**9, 2**53 - 1, 2**53 + 1, 2**54 + 2, 2**54 + 6]:
+        for qn in list(range(1, 13)) + [55, 2**53 - 1]:
+            yield {"stream": "small-scope", "op": "num", "what": "fl", "x": f"{pn}/{qn}"}
+    for n_ in range(1, 61 if quick else 400):
+        for rate in (1e9 / (n_ + 0.5), float(np.nextafter(1e9 / (n_ + 0.5), 0.0)), float(np.nextafter(1e9 / (n_ + 0.5), 1e300)), 1e9 / n_):
+            yield {"stream": "small-scope", "op": "dtr", "rate": enc_float(rate)}
+    for dt in list(range(1, 201 if quick else 3001)):
+        yield {"stream": "small-scope", "op": "dtu", "dt": dt}
+    # ---- sample rate of a time series: every increment pattern on up to 4 samples, and longer random ones
+    for n_ in range(0, 5):
+        for inc in itertools.product([0, 1, 2, 7], repeat=max(n_ - 1, 0)):
+            if n_ >= 2 and set(inc) == {0}:
+                continue  # a unique step of 0 divides by zero: outside the model
+            ts_ = [100]
+            for d_ in inc:
+                ts_.append(ts_[-1] + d_)
+            yield {"stream": "small-scope", "op": "tsrate", "ts": ts_[:n_]}
+    r = rng.fork("c05-tsrate")
+    for i in range(60 if quick else 1000):
+        sub = r.fork(i)
+        step = sub.choice([1, 3, 55, 1000, 12800, sub.randint(1, 10**9)])
+        n_ = sub.randint(2, 12)
+        base_ = sub.choice([0, 1_600_000_000_000_000_000])
+        ts_ = [base_ + j * step for j in range(n_)]
+        if sub.chance(0.4):
+            ts_[sub.randint(1, n_ - 1)] += sub.choice([1, -1]) if step > 1 else 1
+            ts_ = sorted(ts_)
+            if len({b - a for a, b in zip(ts_, ts_[1:])}) == 1 and ts_[1] == ts_[0]:
+                continue
+        yield {"stream": "random", "op": "tsrate", "ts": ts_, "subseed": i}
     paths = ["Force HF/Force 1x", "Force HF/Force 1y", "Force LF/Force 1x", "Distance/Distance 1", "a", "ab"]
     pats = ["*", "?", "a", "a*", "*a", "?b", "Force HF/*", "*/Force 1x", "Force HF/Force 1?", "Force*1x", "*/*", "Force HF", "**", "*?*", "F*e*x", ""]
     for p in pats:
@@ -854,15 +1391,143 @@ def cases(tier, rng):
         a = base + sub.randint(-2, 12)
         b = base + sub.randint(-2, 14)
         yield {"stream": "random", "op": "cal", "times": times, "start": a, "stop": b, "subseed": i}
-    for i in range(2000 if quick else 100000):
+    for i in range(2000 if quick else 60000):
         sub = r.fork(("dt", i))
         yield {"stream": "random", "op": "dt", "dt": sub.choice([sub.randint(1, 10**5), sub.randint(1, 10**9), sub.randint(1, 10**7)]), "subseed": i}
+    for i in range(600 if quick else 8000):
+        # periods up to 2^50 (the range of period_round_trip) and arbitrary stored rates, incl. rates whose period
+        # is (nearly) half-way between two integers
+        sub = r.fork(("dtbig", i))
+        c = sub.randint(0, 3)
+        if c == 0:
+            yield {"stream": "random", "op": "dt", "dt": min(max(2 ** sub.randint(0, 50) + sub.randint(-3, 3), 1), 2**50) if sub.chance(0.5) else sub.randint(1, 2**50), "subseed": i}
+            continue
+        n = sub.choice([sub.randint(1, 200), sub.randint(1, 10**6), sub.randint(1, 2**40)])
+        if c == 1:
+            rate = 1e9 / (n + 0.5)
+        elif c == 2:
+            rate = float(np.nextafter(1e9 / (n + 0.5), sub.choice([0.0, 1e300])))
+        else:
+            rate = sub.randint(1, 10**9) / sub.choice([1, 3, 7, 1000, 4096])
+        yield {"stream": "random", "op": "dtr", "rate": enc_float(rate), "subseed": i}
+        if i % 4 == 0:
+            yield {"stream": "random", "op": "num", "what": "fl", "x": f"{sub.randint(1, 2**62)}/{sub.randint(1, 2**40)}", "subseed": i}
     for i in range(40 if quick else 400):
         sub = r.fork(("omit", i))
         ps = ["G%d/d%d" % (sub.randint(0, 2), sub.randint(0, 3)) for _ in range(sub.randint(1, 4))] + ["Force HF/Force 1x"]
         ps = sorted(set(ps))
         pats_ = [gen_pattern(sub, ps) for _ in range(sub.randint(1, 3))]
         yield {"stream": "random", "op": "omit", "pats": pats_, "paths": ps, "subseed": i}
+
+    # ---- datasets: channel_class on every (Kind spelling, dataset shape, sample-rate attribute) combination
+    for kd in ["absent"] + [f"{sp}:{t}" for sp in ("str", "bytes") for t in ("Continuous", "TimeSeries", "TimeTags", "Scan", "continuous", "Kymograph")]:
+        for shape in ("plain", "compound"):
+            for rate in (False, True):
+                yield {"stream": "small-scope", "op": "class", "kind": kd, "shape": shape, "rate": rate}
+    # ---- to_dataset -> channel_class -> from_dataset, and the cropped variant, on every small channel / window
+    small_srcs = []
+    for start in (100,):
+        for dt in (1, 3, 55):
+            for n in range(0, 4):
+                small_srcs.append({"kind": "cont", "start": start, "dt": dt, "data": [7 + i for i in range(n)]})
+    for ts in ([], [100], [100, 103], [100, 103, 103], [100, 101, 106, 109]):
+        small_srcs.append({"kind": "ts", "ts": ts})
+        small_srcs.append({"kind": "tags", "ts": ts})
+    for e in small_srcs:
+        yield {"stream": "small-scope", "op": "dset", "src": e}
+    wgrid = [94, 97, 100, 101, 103, 104, 106, 109, 110, 155, 156, 300]
+    for e in small_srcs:
+        for a in wgrid:
+            for b in wgrid:
+                if quick and (a > b + 10 or (len(src_samples(e)) == 0 and a != 100)):
+                    continue
+                yield {"stream": "small-scope", "op": "cropread", "src": e, "crop": [a, b]}
+    w2 = [97, 100, 103, 106, 110, 300]
+    for e in small_srcs:
+        if len(src_samples(e)) < 2:
+            continue
+        for a in w2:
+            for b in w2:
+                for c in w2:
+                    for d_ in w2:
+                        if a < b and c < d_ and (not quick or (a + b + c + d_) % 3 == 0):
+                            yield {"stream": "small-scope", "op": "cropread2", "src": e, "crop": [a, b], "crop2": [c, d_]}
+    r = rng.fork("c05-dset")
+    for i in range(300 if quick else 3000):
+        sub = r.fork(i)
+        kind = sub.choice(["cont", "cont", "ts", "tags"])
+        base = sub.choice([0, 1_600_000_000_000_000_000])
+        n = sub.randint(0, 12)
+        if kind == "cont":
+            dt = sub.choice([sub.randint(1, 200), sub.randint(1, 10**9), 2 ** sub.randint(0, 40), 12800])
+            e = {"kind": "cont", "start": base + sub.randint(0, 1000), "dt": dt, "data": [sub.randint(-50, 50) for _ in range(n)]}
+            lo, hi, step = e["start"], e["start"] + n * dt, dt
+        else:
+            step = sub.choice([1, 3, 1000])
+            ts, t = [], base + sub.randint(0, 1000)
+            for _ in range(n):
+                ts.append(t)
+                t += sub.randint(0 if kind == "ts" else 1, 3) * step
+            e = {"kind": kind, "ts": ts}
+            lo, hi = (ts[0], ts[-1] + 1) if ts else (base, base + 1)
+        if sub.chance(0.3):
+            yield {"stream": "random", "op": "dset", "src": e, "subseed": i}
+        else:
+            pts = [lo, hi, lo - 1, lo + 1, hi - 1, hi + 1, lo + step, hi - step, lo - 3 * step, hi + 3 * step, (lo + hi) // 2, (lo + hi) // 2 + 1]
+            a, b = sub.choice(pts), sub.choice(pts)
+            if a > b and sub.chance(0.8):
+                a, b = b, a
+            if sub.chance(0.35):
+                c, d_ = sorted([sub.choice(pts), sub.choice(pts)])
+                yield {"stream": "random", "op": "cropread2", "src": e, "crop": [int(a), int(b)], "crop2": [int(c), int(d_)], "subseed": i}
+                continue
+            yield {"stream": "random", "op": "cropread", "src": e, "crop": [int(a), int(b)], "compression": sub.choice([0, 1, 5, 9]), "subseed": i}
+
+    # ---- calibration of a channel: Calibration groups -> from_field -> slice -> filter
+    ent = [None, "absent", 95, 100, 105, 110, 130]
+    csrc = [{"kind": "cont", "start": 100, "dt": 10, "data": [1, 2, 3]}, {"kind": "ts", "ts": [100, 104, 110]}]
+    wins = [None, [100, 130], [101, 111], [105, 125], [111, 200], [0, 100]]
+    for e in csrc:
+        for w in wins:
+            for g1 in ent:
+                yield {"stream": "small-scope", "op": "calchan", "groups": [] if g1 == "absent" else [{"Force 1x": g1, "Force 2x": 100}], "ch": "Force 1x", "src": e, "win": w}
+                for g2 in ent:
+                    if quick and w not in (None, [105, 125]):
+                        continue
+                    groups = [({} if g == "absent" else {"Force 1x": g}) for g in (g1, g2)]
+                    yield {"stream": "small-scope", "op": "calchan", "groups": groups, "ch": "Force 1x", "src": e, "win": w}
+    r = rng.fork("c05-calchan")
+    for i in range(200 if quick else 2000):
+        sub = r.fork(i)
+        base = sub.choice([0, 1_600_000_000_000_000_000])
+        dt = sub.choice([1, 3, 10, 55])
+        n = sub.randint(0, 8)
+        if sub.chance(0.5):
+            e = {"kind": "cont", "start": base + 100, "dt": dt, "data": list(range(n))}
+        else:
+            e = {"kind": "ts", "ts": sorted(base + 100 + sub.randint(0, 8 * dt) for _ in range(n))}
+        groups = []
+        for _ in range(sub.randint(0, 5)):
+            g = {}
+            for nm in ("Force 1x", "Force 1y", "Force 2x"):
+                c = sub.randint(0, 5)
+                if c == 0:
+                    continue
+                g[nm] = None if c == 1 else base + 100 + sub.randint(-2, 9) * dt + sub.choice([0, 0, 1, -1])
+            groups.append(g)
+        pts = [base + 100 + j * dt + d for j in (-1, 0, 1, n - 1, n, n + 1) for d in (-1, 0, 1)]
+        w = None if sub.chance(0.3) else sorted([sub.choice(pts), sub.choice(pts)])
+        yield {"stream": "random", "op": "calchan", "groups": groups, "ch": sub.choice(["Force 1x", "Force 1x", "Force 2x"]), "src": e, "win": w, "subseed": i}
+
+    # ---- the whole output tree under omit patterns (nested groups with/without attributes, bare parents)
+    tree = [["A", "g", True], ["A/B", "g", True], ["A/B/y", "d", True], ["A/x", "d", True], ["C", "g", False], ["C/z", "d", True], ["D", "g", True]]
+    tpats = ["A", "A/B", "A/*", "*", "A/B/y", "A/x", "C", "C/z", "*/x", "?", "A/?", "*y", "D", "*/*/*", "A*", "Nope"]
+    yield {"stream": "small-scope", "op": "omittree", "pats": [], "tree": tree}
+    for tp in tpats:
+        yield {"stream": "small-scope", "op": "omittree", "pats": [tp], "tree": tree}
+    for tp, tq in itertools.combinations(tpats[:9], 2):
+        if not quick or (len(tp) + len(tq)) % 2 == 0:
+            yield {"stream": "small-scope", "op": "omittree", "pats": [tp, tq], "tree": tree}
 
     # ---- channels by attribute: the whole table on a file with every channel, with none, with each one missing,
     #      and on random subsets
@@ -894,15 +1559,64 @@ def cases(tier, rng):
 
 def extra_coverage(results):
     modes, versions, kinds, absent, errs = {}, {}, {}, 0, {}
+    ops_n, branches = {}, {}
+
+    def hit(name):
+        branches[name] = branches.get(name, 0) + 1
+
     for r in results:
         c = r["case"]
+        ops_n[c["op"]] = ops_n.get(c["op"], 0) + 1
         if c["op"] == "file":
             modes[c["mode"]] = modes.get(c["mode"], 0) + 1
             versions[c["spec"]["version"]] = versions.get(c["spec"]["version"], 0) + 1
             for ch in c["spec"]["channels"]:
                 kinds[ch["kind"]] = kinds.get(ch["kind"], 0) + 1
             absent += sum(1 for a in r["impl"] if a == "absent")
+            if c.get("crop2"):
+                hit("file:exported-twice")
+            for (line, kind, payload), a in zip(file_plan(c), r["impl"]):
+                hit("file-op:" + kind)
+                if kind == "keep":
+                    sl = c.get("_obs", {}).get("keep", {}).get("/".join(payload))
+                    hit(f"file-keep:{payload[0]}:" + ("cannot-crop-itself" if sl is None else "dropped" if a == "N" else "kept"))
+                if kind in ("cal", "calslice"):
+                    hit(f"file-{kind}:" + ("none-listed" if a == "[]" else "listed"))
+            if any("Stop time (ns)" not in a_ for cal in c["spec"]["calibrations"] for a_ in cal["channels"].values()):
+                hit("file:calibration-entry-without-time-field")
+        elif c["op"] == "class":
+            hit("class:" + r["impl"][0])
+        elif c["op"] == "calchan":
+            if not c["groups"]:
+                hit("calchan:no-Calibration-group")
+            elif not any(g.get(c["ch"]) is not None for g in c["groups"]):
+                hit("calchan:no-item-for-channel")
+            elif r["impl"][0] == "[]":
+                hit("calchan:items-but-none-applies-or-empty-slice")
+            else:
+                hit("calchan:listed-" + str(min(r["impl"][0].count(",") + 1, 3)) + ("+" if r["impl"][0].count(",") >= 2 else ""))
+            if any(t is None for g in c["groups"] for t in g.values()):
+                hit("calchan:entry-without-time-field")
+            hit("calchan:" + ("sliced" if c.get("win") else "whole"))
+        elif c["op"] in ("cropread", "cropread2"):
+            hit(f"{c['op']}:{c['src']['kind']}:" + ("absent" if r["impl"][0] == "absent" else "written"))
+        elif c["op"] == "dset":
+            hit(f"dset:{c['src']['kind']}:" + ("IndexError" if r["impl"][0] == "IndexError" else "written"))
+        elif c["op"] == "dt":
+            hit("dt:" + ("<=1e5" if c["dt"] <= 10**5 else "<=1e9" if c["dt"] <= 10**9 else "<=2^50"))
+        elif c["op"] == "dtr":
+            hit("dtr:arbitrary-rate")
+        elif c["op"] == "tsrate":
+            hit("tsrate:" + ("None" if r["impl"][0] == "N" else "regular"))
+        elif c["op"] == "omittree":
+            for st in set(r["impl"][0].strip("[]").split(",")):
+                hit("omittree:some-node-" + st)
+        elif c["op"] == "num":
+            hit("num:" + c["what"])
+        elif c["op"] == "dtu":
+            hit("dtu:" + ("truncation-loses-1ns" if r["impl"][0] != str(c["dt"]) else "same"))
         for a in r["impl"]:
             if a.endswith("Error"):
                 errs[a] = errs.get(a, 0) + 1
-    return {"file_modes": modes, "file_versions": versions, "channel_kinds": kinds, "channels_dropped_by_crop": absent, "error_kinds": errs}
+    return {"file_modes": modes, "file_versions": versions, "channel_kinds": kinds, "channels_dropped_by_crop": absent, "error_kinds": errs,
+            "cases_per_op": ops_n, "branches": dict(sorted(branches.items()))}
